@@ -78,6 +78,10 @@ def shape(rng, min_cols=0):
         return rng.randint(1, 6), 0
     if u < 0.30:
         return rng.randint(1, 16), rng.randint(max(1, min_cols), 50)
+    if u < 0.38:
+        # particle-set sizes (the circular mean of N particles): hundreds of columns, also right at block boundaries
+        # of the sizes a blocked / vectorised evaluation would use
+        return rng.randint(1, 3), rng.choice([63, 64, 65, 127, 128, 129, 200, 255, 256, 257, 300, 500, 511, 513, 1000, rng.randint(100, 1200)])
     return rng.randint(1, 4), rng.randint(max(1, min_cols), 9)
 
 
